@@ -671,6 +671,8 @@ static int op_cfg(int argc, char **argv, FILE *out) {
     }
     world_ready = 1;
     fputs("ok", out);
+    /* how the configuration's LogMAC / FTicksMAC / FTicksReporting were understood */
+    fprintf(out, " macopts:%d,%d,%d", options.log_mac, options.fticks_mac, options.fticks_reporting);
     for (e = list_first(clconfs); e; e = list_next(e)) {
         struct clsrvconf *c = e->data;
         if (c->type == RAD_TLS || c->type == RAD_DTLS)
@@ -1024,17 +1026,18 @@ static int op_dynconf(int argc, char **argv, FILE *out) {
     struct realm *realm, *sub;
     struct clsrvconf *conf;
     const struct protodefs *saved_tcp = protodefs[RAD_TCP], *saved_dtls = protodefs[RAD_DTLS];
-    int ttype = RAD_TCP, trc = 0, tri = 0, have_t = 0, tcn = 0, tnc = 1, have_c = 0, tsec_len = 0;
+    int ttype = RAD_TCP, trc = 0, tri = 0, have_t = 0, tcn = 0, tnc = 1, have_c = 0, tsec_len = 0, tlp = 255, have_l = 0;
     /* the fourth argument (the secret the printed block sets, or ".") is for the model's side only; so is a sixth (what the block
        says about type and retries); the fifth, T<type>,<RetryCount>,<RetryInterval>, describes the template block (255 = not set) */
     if (argc != 4 && argc != 6)
         return 0;
     if (argc == 6) {
-        int nf = sscanf(argv[4], "T%d,%d,%d,%d,%d", &ttype, &trc, &tri, &tcn, &tnc);
-        if ((nf != 3 && nf != 5) || (ttype != RAD_TCP && ttype != RAD_DTLS))
+        int nf = sscanf(argv[4], "T%d,%d,%d,%d,%d,%d", &ttype, &trc, &tri, &tcn, &tnc, &tlp);
+        if ((nf != 3 && nf != 5 && nf != 6) || (ttype != RAD_TCP && ttype != RAD_DTLS))
             return 0;
         have_t = 1;
-        have_c = nf == 5; /* the template block's CertificateCNCheck / CertificateNameCheck */
+        have_c = nf >= 5; /* the template block's CertificateCNCheck / CertificateNameCheck */
+        have_l = nf == 6; /* ... and its LoopPrevention (255 = not set) */
     }
     {
         /* the template block's secret as the configuration reader leaves it: decoded octets (NULs included) and their number */
@@ -1078,6 +1081,8 @@ static int op_dynconf(int argc, char **argv, FILE *out) {
             conf->certcncheck = tcn;
             conf->certnamecheck = tnc;
         }
+        if (have_l)
+            conf->loopprevention = tlp;
         if (ttype == RAD_DTLS) {
             conf->pskkey = (uint8_t *)stringcopy("0123456789abcdef", 0);
             conf->pskkeylen = 16;
@@ -1114,6 +1119,8 @@ static int op_dynconf(int argc, char **argv, FILE *out) {
             fprintf(out, " type=%d rc=%d ri=%d", c->type, c->retrycount, c->retryinterval);
         if (have_c) /* which certificate name checks the discovered server is subject to */
             fprintf(out, " cn=%d nc=%d", c->certcncheck, c->certnamecheck);
+        if (have_l)
+            fprintf(out, " lp=%d", c->loopprevention);
     }
     realms = saved;
     protodefs[RAD_TCP] = saved_tcp;
@@ -1702,7 +1709,7 @@ static int op_fault(int argc, char **argv, FILE *out) {
     if (!h_live_on())
         h_live_set(1); /* from the first fault op of a world on, what the program allocates is accounted for */
     h_alloc_arm(n >= 0 ? n : 1L << 40, 0);
-    r = h_rsp_op(argv[1], argc - 2, argv + 2, out);
+    r = h_rsp_op(argv[1], argc - 2, argv + 2, out) || h_tls_op(argv[1], argc - 2, argv + 2, out) || h_tcp_op(argv[1], argc - 2, argv + 2, out);
     fprintf(out, " allocs:%ld", h_alloc_count());
     h_alloc_arm(-1, 0);
     if (r && !strcmp(argv[1], "idle"))
